@@ -159,11 +159,11 @@ Theorem C11_siblings_independent K s ci a1 a2 es :
 Proof. exact (siblings_independent K s ci a1 a2 es). Qed.
 
 (* ---------------- the same at the level of fsic OPERATIONS (each compiled against the heap its predecessors left) *)
-(* every modelled public operation - item / series / scalar assignment, add_variable, attribute sets, strict, list and dict
-   mutations, solve passes and status writes, trace_t, linker submodel writes - brings no class-owned or caller-owned object
-   into its receiver, on ANY heap; the one exception is trace_t(trace=True) with a class-level TRACE_VARIABLES list *)
+(* EVERY modelled public operation - item / series / scalar assignment, add_variable, attribute sets, strict, list and dict
+   mutations, solve passes and status writes, trace_t in every mode, linker submodel writes, aliasing an own list under a second
+   attribute - brings no class-owned or caller-owned object into its receiver, on ANY heap (no exception any more: since fix
+   cfb58ac trace_t gives the Trace a list of its own) *)
 Theorem C11_every_operation_is_tight K h r o :
-  (match o with OTraceT _ _ TMClass _ => false | _ => true end) = true ->
   forallb (fun a => negb (act_leaky a)) (compile_op K h r o) = true.
 Proof. exact (compile_op_tight K h r o). Qed.
 
@@ -240,14 +240,22 @@ Proof. exact (conj ex_ops_history_ok ex_copy_then_ops_share_nothing). Qed.
 Theorem C11_hypotheses_satisfiable : roots_ok (s0 0 None).
 Proof. exact ex_roots_ok. Qed.
 
-(* ---------------- what the current code still shares, and why the hypotheses are needed: witnesses *)
-(* KEPT FINDING (known_findings.d/C11.json): TracerMixin stores the class-level TRACE_VARIABLES list itself in a Trace:
-   operations on the instance (m.trace[1].names.append) change the class, hence every sibling *)
-Theorem C11_tracer_class_list_leak_refuted :
-  exists (s : state) (ops : list op) (j : nat) (rj : loc),
-    roots_ok s /\ nth_error (sroots s) j = Some rj /\ j <> 1%nat /\
-    view 3 (sh (run_hevents K0 s [HOps 1 ops])) (VR rj) <> view 3 (sh s) (VR rj).
-Proof. exact tracer_class_list_leak_refuted. Qed.
+(* ---------------- repaired findings (positive statements), memo policies, and why the hypotheses are needed: witnesses *)
+(* (was the kept finding C11|class-mutable-reachable|TRACE_VARIABLES, repaired by fix cfb58ac) NO operations applied to one root -
+   trace_t(trace=True) with a class-level TRACE_VARIABLES list and any later edit of Trace.names included - are visible on
+   another root (the class, a sibling, a copy), at any depth, from any state *)
+Theorem C11_tracer_class_list_no_leak K s i ops j rj n :
+  roots_ok s -> nth_error (sroots s) j = Some rj -> j <> i ->
+  view n (sh (run_hevents K s [HOps i ops])) (VR rj) = view n (sh s) (VR rj).
+Proof. exact (ops_leave_other_roots K s i ops j rj n). Qed.
+
+(* ... on the former witness: the class is unchanged, the instance changed, nothing is shared *)
+Theorem C11_tracer_class_list_no_leak_example :
+  roots_ok s_tr /\ nth_error (sroots s_tr) 0 = Some 4%nat /\
+  view 3 (sh (run_hevents K0 s_tr [HOps 1 leak_ops])) (VR 4%nat) = view 3 (sh s_tr) (VR 4%nat) /\
+  nth 1 (root_views (run_hevents K0 s_tr [HOps 1 leak_ops]) 5) CCut <> nth 1 (root_views s_tr 5) CCut /\
+  sharing (run_hevents K0 s_tr [HOps 1 leak_ops]) = [].
+Proof. exact ex_former_leak_now_local. Qed.
 
 (* a span list handed to two constructors is stored by reference by both (the hypothesis `leaky (ia_span a) = false` is needed) *)
 Theorem C11_shared_span_argument_refuted :
@@ -258,15 +266,29 @@ Theorem C11_shared_span_argument_refuted :
     nth 2 (root_views (run_hevents K0 s1 [HOps 1 ops]) 3) CCut <> nth 2 (root_views s1 3) CCut.
 Proof. exact shared_span_argument_refuted. Qed.
 
-(* a STRONGER reading of "observationally equal" (equal under every later operation as well) is refuted: copy() deep-copies entry
-   by entry, so aliasing BETWEEN entries (Trace.names is model.names after a traced solve: C17's finding) is lost; original and
-   copy are equal at copy time (first conjunct, what C11 states) and diverge under the same later add_variable *)
-Theorem C11_copy_unshares_internal_alias_refuted :
+(* the former witness "copy() drops the alias Trace.names is model.names" no longer exists (fix cfb58ac): a traced model and its
+   copy stay equal under the same later add_variable on both sides *)
+Theorem C11_copy_of_traced_model_stays_equal :
   let s1 := run_events K0 s_al [ECopy 1] in
   nth 2 (root_views s1 6) CCut = nth 1 (root_views s1 6) CCut /\
   let s2 := run_hevents K0 s1 [HOps 1 [OAddVariable 207 109 [1; 2; 3]]; HOps 2 [OAddVariable 207 109 [1; 2; 3]]] in
-  nth 2 (root_views s2 6) CCut <> nth 1 (root_views s2 6) CCut.
-Proof. exact copy_unshares_internal_alias_refuted. Qed.
+  nth 2 (root_views s2 6) CCut = nth 1 (root_views s2 6) CCut.
+Proof. exact ex_copy_of_traced_model_stays_equal. Qed.
+
+(* both memo policies of copy() (consts field k_single_memo; every theorem of this file is quantified over K, hence over both):
+   they differ only where the USER aliased two entries of one object (m.mine = m.names); both copies equal the original at copy
+   time and share nothing with it; the same later append tells them apart and reaches the original in neither case *)
+Theorem C11_memo_policies_example :
+  let c0 := run_events K0 s_ua [ECopy 1] in
+  let c1 := run_events K1 s_ua [ECopy 1] in
+  nth 2 (root_views c0 6) CCut = nth 1 (root_views c0 6) CCut /\
+  nth 2 (root_views c1 6) CCut = nth 1 (root_views c1 6) CCut /\
+  sharing c0 = [] /\ sharing c1 = [] /\
+  let ops := [HOps 2 [OListAppend 213 777]] in
+  nth 2 (root_views (run_hevents K0 c0 ops) 6) CCut <> nth 2 (root_views (run_hevents K1 c1 ops) 6) CCut /\
+  nth 1 (root_views (run_hevents K0 c0 ops) 6) CCut = nth 1 (root_views c0 6) CCut /\
+  nth 1 (root_views (run_hevents K1 c1 ops) 6) CCut = nth 1 (root_views c1 6) CCut.
+Proof. exact ex_memo_policies. Qed.
 
 (* #21 (C12's finding, outside C11's claim): reindex shares object-dtype cells (the Trace objects) with the original *)
 Theorem C11_reindex_shares_object_cells_refuted :
@@ -286,9 +308,11 @@ Print Assumptions C11_history_independent.
 Print Assumptions C11_copy_independent.
 Print Assumptions C11_siblings_independent.
 Print Assumptions C11_hypotheses_satisfiable.
-Print Assumptions C11_tracer_class_list_leak_refuted.
+Print Assumptions C11_tracer_class_list_no_leak.
+Print Assumptions C11_tracer_class_list_no_leak_example.
 Print Assumptions C11_shared_span_argument_refuted.
-Print Assumptions C11_copy_unshares_internal_alias_refuted.
+Print Assumptions C11_copy_of_traced_model_stays_equal.
+Print Assumptions C11_memo_policies_example.
 Print Assumptions C11_reindex_shares_object_cells_refuted.
 Print Assumptions C11_every_operation_is_tight.
 Print Assumptions C11_operation_history_independent.
